@@ -113,6 +113,12 @@ func (w *Worker) Exec(bin string, s *Spec, timeout time.Duration) (*Result, erro
 	if err := os.WriteFile(filepath.Join(cwd, gfile), []byte(s.GrammarText), 0o644); err != nil {
 		return nil, err
 	}
+	// The same file is the same file: its timestamps do not change between the runs
+	// that are compared (a tree that prints the source's modification time is
+	// deterministic in the property's sense).
+	fixed := time.Date(2020, 1, 1, 0, 0, 0, 0, time.UTC)
+	os.Chtimes(filepath.Join(cwd, gfile), fixed, fixed)
+	os.Chtimes(filepath.Join(w.Mod, "go.mod"), fixed, fixed)
 	args := append([]string{}, s.Flags...)
 	if s.OutSpec != "" {
 		o := s.OutSpec
